@@ -773,6 +773,9 @@ def buckets_of(desc):
     sv = desc['services'][0]
     T = sv['nstype']
     p = desc['params']
+    if any(R.guardrailed(T, it['itype']) for it in sv['ifaces']):
+        # may end at the connect step: a stratum of its own, never the witness of a validation clause
+        return [f'{T}:guardrailed:{p[1]}:{p[6]}']
     out = []
     user = [f for f in res['failures'] if not f.get('implicit') and not f['clause'].startswith('node-')]
     if not res['failures']:
@@ -790,7 +793,7 @@ def buckets_of(desc):
     return out
 
 
-def quick_plan(seed, per_bucket=2, fill=700):
+def quick_plan(seed, per_bucket=2, fill=350):
     order = list(range(S_TOTAL))
     random.Random(f'C10/plan/{seed}').shuffle(order)
     have, plan, rest = {}, [], []
@@ -858,7 +861,7 @@ def run(ctx):
         ctx.mark_inconclusive(f'shard {sh}: time budget reached after {done} of {len(mine)} points of the service product')
     # ---- random multi-service mixes
     rng = ctx.subrng('mix')
-    for i in range(ctx.pick(60, 1500)):
+    for i in range(ctx.pick(40, 1500)):
         if ctx.out_of_time():
             break
         run_case(ctx, imp, r_desc(rng), f'R/{ctx.seed}/{sh}/{i}')
